@@ -80,7 +80,7 @@ def minimise_items(scn, oracle, judge, seconds=90, alts=()):
 
     def ok(c):
         try:
-            return any(f["oracle"] == oracle for f in judge(c))
+            return valid_scenario(c) and any(f["oracle"] == oracle for f in judge(c))
         except Exception:
             return False
 
@@ -134,3 +134,13 @@ def minimise_items(scn, oracle, judge, seconds=90, alts=()):
             c[i] = {k: v for k, v in msg.items() if k == "MTI" or k in ks}
             base = with_items(c)
     return base
+
+
+def valid_scenario(scn):
+    """a minimised scenario must stay inside what the property quantifies over: records non-empty and no
+    longer than the configured maximum (otherwise the 'same oracle' would fail for an unrelated reason)"""
+    from ..kernel import spec_len
+    if scn.get("level", "vbs") == "vbs" and "records" in scn:
+        mx = maxlen_of(scn)
+        return all(1 <= spec_len(r) <= mx for r in scn["records"])
+    return True
